@@ -8,7 +8,7 @@ C07 — filter JSON parsing: integer members never wrap, duplicate tag letters a
 whatever their position, and the parser is total.
 
 THE ROUND TRIP (`round_trip`, `round_trip_values`): for every canonical filter — any numbers of ids,
-authors and kinds, up to 32 tag constraints named by distinct letters with UTF-8 values, any
+authors and kinds, tag constraints named by distinct letters (any number of them: all 52) with UTF-8 values, any
 since/until/limit, members present or defaulted — `as_json` succeeds and `from_json` of its text
 (with any trailing input, into any sufficient buffer with any prior contents) consumes exactly the
 text and yields exactly the bytes of `from_parts`, whose accessors return the filter.  Both passes
@@ -66,7 +66,7 @@ theorem kind_member_bound (fuel : Nat) (inp : Bytes) (e cap n : Nat) (ks : List 
 
 /-- a second tag member with a letter already seen is rejected, wherever the first one was -/
 theorem duplicate_letter_rejected (st : FlSt) (l : Nat) (after : Bytes) (hl : isLetter l = true)
-    (hseen : l ∈ st.letters) (hfew : st.tagStarts.length < 32) :
+    (hseen : l ∈ st.letters) (hfew : st.tagStarts.length < 52) :
     flMember st (34 :: 35 :: l :: 34 :: after) = .err := by
   unfold flMember
   simp only [verifyChar, if_true]
@@ -82,7 +82,7 @@ theorem duplicate_letter_rejected (st : FlSt) (l : Nat) (after : Bytes) (hl : is
   rw [hne kIds (by decide) (by decide), hne kAuthors (by decide) (by decide), hne kKinds (by decide) (by decide),
     hne kSince (by decide) (by decide), hne kUntil (by decide) (by decide), hne kLimit (by decide) (by decide)]
   simp only [Bool.false_eq_true, if_false, hl, and_self, if_true]
-  have : ¬ st.tagStarts.length ≥ 32 := by omega
+  have : ¬ st.tagStarts.length ≥ 52 := by omega
   simp only [this, if_false, List.contains_iff_mem, hseen, if_true]
 
 /-- whatever text is accepted, the result is exactly the encoding of a sized filter (what
@@ -118,7 +118,7 @@ theorem round_trip_values (f : FilterRec) (hc : FilterCanon f) (rest buf : Bytes
 example : ∃ f : FilterRec, FilterCanon f ∧ f.tags.length = 2 ∧ f.ids ≠ [] := by
   refine ⟨{ ids := [List.replicate 32 7], authors := [], kinds := [1], tags := [[[101], utf8Of [97]], [[112], utf8Of [233], utf8Of [10]]],
             since := 0, «until» := U64MAX, limit := 10 }, ?_, rfl, by simp⟩
-  refine ⟨?_, ?_, ?_, ?_, ?_, ?_⟩
+  refine ⟨?_, ?_, ?_, ?_, ?_⟩
   · constructor <;> simp [U64MAX] <;> decide
   · intro x hx b hb
     simp only [List.mem_singleton] at hx; subst hx
@@ -134,7 +134,6 @@ example : ∃ f : FilterRec, FilterCanon f ∧ f.tags.length = 2 ∧ f.ids ≠ [
         rcases hv with rfl | rfl
         · exact ⟨[233], by decide, rfl⟩
         · exact ⟨[10], by decide, rfl⟩, by decide⟩
-  · decide
   · decide
 
 end Pocket.C07
